@@ -12,7 +12,7 @@ MANIFEST_TEXT = ("Lean 4 theorems, for every rank and all extents (0 and 1 inclu
                  "conversions preserve the addressing, the static/dynamic extent index table is correct, mdspan/mdarray "
                  "access stays inside storage of required_span_size elements and hits exactly the designated element, "
                  "span sub-views denote the designated elements.  The model is run against the real templates "
-                 "(ranks 0..4, extents 0..4(+), 32 static/dynamic patterns, index types int/size_t/short, all index tuples) "
+                 "(ranks 0..4, extents 0..4 (random part up to 8), 32 static/dynamic patterns, index types int/size_t/short, all index tuples) "
                  "with an independent enumeration-order oracle, pointer-identity checks and ASan.")
 MANIFEST_NOTE = ("Trusted: Lean kernel (+propext/Classical.choice/Quot.sound), tr_c14.py, the hand-written loop skeletons of "
                  "Model/C14.lean (fidelity checked by the differential run only), the harness oracle, g++/ASan/UBSan. "
